@@ -9,9 +9,9 @@ import engine as E
 VERIF = E.VERIF
 UNIT_TOOL = {"field": "field", "strip": "parser", "valueops": "ps", "degree": "ps"}
 # engine name -> (tool dir, argument prefix)
-ENGINES = {"field": ("field", ["bounded"]), "parser": ("parser", ["bounded"]), "valueops": ("ps", ["bounded", "valueops"]), "degree": ("ps", ["bounded", "degree"]), "degree_expr": ("ps", ["bounded", "degree_expr"]), "dom": ("ps", ["bounded", "dom"]), "cfg": ("parser", ["bounded-cfg"])}
+ENGINES = {"field": ("field", ["bounded"]), "parser": ("parser", ["bounded"]), "valueops": ("ps", ["bounded", "valueops"]), "degree": ("ps", ["bounded", "degree"]), "degree_expr": ("ps", ["bounded", "degree_expr"]), "dom": ("ps", ["bounded", "dom"]), "cfg": ("parser", ["bounded-cfg"]), "e2e-tuples": ("py", ["tuples"]), "e2e-output": ("py", ["output"])}
 UNIT_ENGINE = {"field": "field", "strip": "parser", "valueops": "valueops", "degree": "degree", "dom": "dom"}           # unit -> tools/replay/<dir>
-PROP_BOUNDED = {"C16": ["field"], "C01": ["field", "parser"], "C05": ["parser"], "C04": ["parser"], "C06": ["valueops"], "C07": ["degree", "degree_expr"], "C15": ["dom"], "C12": ["cfg"]}
+PROP_BOUNDED = {"C16": ["field"], "C01": ["field", "parser", "e2e-tuples"], "C05": ["parser"], "C04": ["parser"], "C06": ["valueops"], "C07": ["degree", "degree_expr"], "C15": ["dom"], "C12": ["cfg"], "C18": ["e2e-tuples"], "C03": ["e2e-output"]}
 
 
 def _build(tool):
@@ -48,6 +48,10 @@ def _limits():
 
 
 def _run(tool, args, timeout=900):
+    if tool == "py":
+        import sys
+        env = dict(os.environ, VERIF_REPO=E.REPO)
+        return subprocess.run([sys.executable, os.path.join(VERIF, "run", "e2e.py")] + [str(a) for a in args], capture_output=True, text=True, timeout=timeout, env=env)
     exe = _build(tool)
     p = subprocess.run([exe] + [str(a) for a in args], capture_output=True, text=True, timeout=timeout, preexec_fn=_limits)
     return p
